@@ -78,7 +78,8 @@ PROPS = {
         kani=['format'],
         scope='the same functional postconditions are discharged with -C debug-assertions=on and =off and overflow freedom is proved, so '
               'neither cfg(debug_assertions) arms nor overflow checking can be observed through a function under contract.',
-        not_decided=['front end (combinator code)'],
+        not_decided=['front end (combinator code): outside the verifier — covered only by the BOUNDED stand-in BOUNDED.profile_agreement (a debug and a '
+                     'release build answer about 25k parse/compile requests identically; labelled bounded, not counted as proved)'],
     ),
     'C07': dict(
         level='proof',
